@@ -18,6 +18,12 @@ CHECKS = {
  "C02": dict(level="model_checking", design="§3 C02",
    technique="same exhaustive exploration as C01 with a whole-ledger monitor: all bank balances and total supply snapshotted before/after every successful orbiter transfer and compared with the delta computed by a math/big reference",
    text="On every successful orbiter-addressed transfer among all transitions of the C01 exploration (plus an amount menu up to 2^256-1 and the IGP Hyperlane configuration) the complete bank ledger delta (every account found by iterating the bank store, and total supply) must equal the expected delta: escrow -A, each fee recipient +f_i, sink +out / burn, stray balance to the dust collector, nothing else; out > 0."),
+ "C12": dict(level="model_checking", design="§3 C12",
+   technique="explicit-state BFS over all operation sequences up to depth 3/4 of a 20-operation alphabet on the real SimApp with a statistics-ledger reference model stepped in lock-step; export and direct-lookup queries compared after every transition",
+   text="All sequences of <=3 (quick) / <=4 (thorough) operations over successful transfers on every (source channel, destination, denom, fee) shape, refused transfers, plain ICS-20 traffic, admin messages, direct deposits and a genesis-style import of near-maximal totals are executed; after every transition the exported dispatcher genesis equals the fold of the successful transfers exactly (no extra/missing keys, counts), every direct lookup agrees, non-transfer transitions leave the dispatcher store bytes unchanged, and the model's in/out are cross-checked against the observed bank ledger delta."),
+ "C11": dict(level="model_checking", design="§3 C11",
+   technique="paired (metamorphic) runs on two branches of every state of an explicit-state BFS: the same transfer with and without direct deposits on the orbiter account, all observations compared",
+   text="For every distinct state reachable by <=2 operations of the C01 prefix alphabet, every deposit set (same denom 1/A/A+1, other denom, IGP denom, all three) and every transfer of a 100+ transfer menu (all routes incl. passthrough payloads and the IGP Hyperlane configuration x fee shapes x amounts) the transfer is executed on the state and on the state+deposits: acknowledgement bytes, every third-party balance delta, supply delta and statistics must be equal; the stray balance in the transferred denom must end on the dust collector and all other denominations must stay on the orbiter account."),
 }
 
 NOT_YET = {}
